@@ -3,8 +3,11 @@ package main
 import (
 	"bufio"
 	"bytes"
+	"encoding/json"
 	"fmt"
+	"os"
 	"os/exec"
+	"path/filepath"
 	"regexp"
 	"strconv"
 	"strings"
@@ -34,7 +37,33 @@ func (p *Program) compilerListing() (*PanicListing, error) {
 	if p.listing != nil {
 		return p.listing, nil
 	}
-	cmd := exec.Command("go", "build", "-gcflags="+modPath+"/...=-l -S -d=ssa/check_bce/debug=1", "./...")
+	args := []string{"build", "-gcflags=" + modPath + "/...=-l -S -d=ssa/check_bce/debug=1"}
+	if len(p.Overlay) > 0 {
+		// compile the same helper-inlined sources that are analysed
+		dir, err := os.MkdirTemp("", "kxoverlay.")
+		if err != nil {
+			return nil, err
+		}
+		defer os.RemoveAll(dir)
+		repl := map[string]string{}
+		i := 0
+		for fn, b := range p.Overlay {
+			i++
+			dst := filepath.Join(dir, fmt.Sprintf("f%d.go", i))
+			if err := os.WriteFile(dst, b, 0o644); err != nil {
+				return nil, err
+			}
+			repl[fn] = dst
+		}
+		js, _ := json.Marshal(map[string]interface{}{"Replace": repl})
+		ov := filepath.Join(dir, "overlay.json")
+		if err := os.WriteFile(ov, js, 0o644); err != nil {
+			return nil, err
+		}
+		args = append(args, "-overlay="+ov)
+	}
+	args = append(args, "./...")
+	cmd := exec.Command("go", args...)
 	cmd.Dir = p.RepoDir
 	arch := p.Arch
 	cmd.Env = loadEnv(arch)
